@@ -19,7 +19,10 @@ void ResidualGive::computeResidual(Vector<double>& result, const Vector<double>&
 
     result = rhs;
 
-    if (omp_get_max_threads() == 1) {
+    /* Without a circle section the innermost nodes belong to the radial lines and are coupled across the origin to the
+     * opposite line, which the 3-colouring of the radial lines does not separate: sweep sequentially in that case. */
+    const bool radial_lines_coupled_across_origin = grid_.numberSmootherCircles() == 0 && !DirBC_Interior_;
+    if (omp_get_max_threads() == 1 || radial_lines_coupled_across_origin) {
         /* Single-threaded execution */
         for (int i_r = 0; i_r < grid_.numberSmootherCircles(); i_r++) {
             applyCircleSection(i_r, result, x);
